@@ -187,7 +187,7 @@ Proof. induction l; cbn; intros; auto. f_equal; apply IHl. Qed.
 (** ** getRootMoves *)
 Definition movesOf (rm : list moveInfo) : list move := map mi_move rm.
 
-Lemma movesOf_newMI : forall l, movesOf (map newMI l) = l.
+Lemma movesOf_newMI : forall l, movesOf (map newMI l) = map fst l.
 Proof. induction l; cbn; auto. unfold movesOf in *; cbn; f_equal; assumption. Qed.
 
 Lemma tbSearchMoves_spec : forall legal tbWin prog bad mts,
@@ -237,7 +237,22 @@ Proof.
 Qed.
 
 Definition freshMI (x : moveInfo) : Prop :=
-  mi_score x = 0 /\ mi_nodes x = 0 /\ mi_knownLoss x = false /\ mi_depth x = 0 /\ mi_pv x = [].
+  mi_nodes x = 0 /\ mi_knownLoss x = false /\ mi_depth x = 0 /\ mi_pv x = [].
+
+Lemma selectIncluded_map : forall {A B} (f : A -> B) (l : list A) fl idx forced,
+  map f (selectIncluded idx forced l fl) = selectIncluded idx forced (map f l) fl.
+Proof.
+  induction l as [|a t IH]; intros fl idx forced; destruct fl as [|b ft]; cbn; auto.
+  destruct (b || Nat.eqb idx forced)%bool; cbn; [f_equal|]; apply IH.
+Qed.
+
+Lemma selSort_moves_perm : forall (ord : move -> Z) l,
+  Permutation (map fst (selSort (length l) (map (fun m => (m, ord m)) l))) l.
+Proof.
+  intros. eapply perm_trans.
+  - apply Permutation_map. apply selSort_perm.
+  - rewrite map_map; cbn. rewrite map_id. apply Permutation_refl.
+Qed.
 
 (** C03_rootmoves_nonempty: for every strength, random seed, move ordering and tablebase verdict the list the
     search iterates over is non-empty, duplicate-free and a subset of the list it was given *)
@@ -250,26 +265,24 @@ Proof.
   unfold getRootMoves. fold (tbFiltered rmi legal limited tbWin prog bad).
   destruct (tbFiltered_props rmi legal limited tbWin prog bad Hne Hnd Hincl) as [Hl1 [Hl2 Hl3]].
   set (l := tbFiltered rmi legal limited tbWin prog bad) in *.
-  set (sorted := map fst (selSort (length l) (map (fun m => (m, ord m)) l))).
-  assert (Hperm : Permutation sorted l).
-  { unfold sorted. eapply perm_trans.
-    - apply Permutation_map. apply selSort_perm.
-    - rewrite map_map; cbn. rewrite map_id. apply Permutation_refl. }
-  assert (Hlen : length sorted = length l) by (apply Permutation_length; assumption).
-  destruct (length sorted) as [|n] eqn:En.
+  set (sortedS := selSort (length l) (map (fun m => (m, ord m)) l)).
+  assert (Hperm : Permutation (map fst sortedS) l) by apply selSort_moves_perm.
+  assert (Hlen : length sortedS = length l).
+  { transitivity (length (map fst sortedS)); [symmetry; apply map_length | apply Permutation_length; assumption]. }
+  destruct (length sortedS) as [|n] eqn:En.
   { destruct l; [congruence | cbn in Hlen; lia]. }
   eexists; split; [reflexivity|].
   set (forced := N.to_nat (rnd0 mod N.of_nat (S n))).
   assert (Hf : (forced < S n)%nat).
   { unfold forced. pose proof (N.mod_upper_bound rnd0 (N.of_nat (S n)) ltac:(lia)). lia. }
-  set (sel := selectIncluded 0 forced sorted (inclFlags (S n) strength rnd0)).
-  assert (Hin : In (nth (forced - 0) sorted emptyMove) sel).
+  set (sel := selectIncluded 0 forced sortedS (inclFlags (S n) strength rnd0)).
+  assert (Hin : In (nth (forced - 0) sortedS (emptyMove, 0)) sel).
   { apply selectIncluded_forced; [rewrite inclFlags_length; lia | lia | lia]. }
-  assert (Hsnd : NoDup sorted) by (eapply Permutation_NoDup; [apply Permutation_sym; eassumption | assumption]).
+  assert (Hsnd : NoDup (map fst sortedS)) by (eapply Permutation_NoDup; [apply Permutation_sym; eassumption | assumption]).
   split; [|split; [|split]].
   - destruct sel; [destruct Hin | cbn; discriminate].
-  - rewrite movesOf_newMI. apply selectIncluded_NoDup; assumption.
-  - rewrite movesOf_newMI. intros m Hm. apply selectIncluded_In in Hm.
+  - rewrite movesOf_newMI. unfold sel. rewrite selectIncluded_map. apply selectIncluded_NoDup; assumption.
+  - rewrite movesOf_newMI. unfold sel. rewrite selectIncluded_map. intros m Hm. apply selectIncluded_In in Hm.
     apply Hl3. eapply Permutation_in; eassumption.
   - apply Forall_forall. intros x Hx. apply in_map_iff in Hx. destruct Hx as [m [<- _]].
     unfold freshMI, newMI; cbn; auto.
@@ -285,12 +298,9 @@ Proof.
   unfold getRootMoves, tbSearchMoves; cbn [negb].
   replace (if (limited && Nat.eqb (length rmi) (length legal))%bool then rmi else rmi) with rmi
     by (destruct (limited && Nat.eqb (length rmi) (length legal))%bool; reflexivity).
-  set (sorted := map fst (selSort (length rmi) (map (fun m => (m, ord m)) rmi))).
-  assert (Hperm : Permutation sorted rmi).
-  { unfold sorted. eapply perm_trans.
-    - apply Permutation_map. apply selSort_perm.
-    - rewrite map_map; cbn. rewrite map_id. apply Permutation_refl. }
-  remember (length sorted) as k eqn:Ek.
+  set (sortedS := selSort (length rmi) (map (fun m => (m, ord m)) rmi)).
+  assert (Hperm : Permutation (map fst sortedS) rmi) by apply selSort_moves_perm.
+  remember (length sortedS) as k eqn:Ek.
   destruct k as [|n]; [discriminate|].
   intros [= <-].
   change (inclTest strength (lcgNext rnd0) :: inclFlags n strength (lcgNext rnd0))
